@@ -74,6 +74,19 @@ def generate(tier, seed, casedir, variant):
             base["validation"]["nan_obs"] = (j % 3 == 0)
             base["validation"]["huge_obs"] = (j % 3 == 1)
         cfgs.append(base)
+    # the update of a validated iteration is not a number: the module is called with the post-update parameters all the same
+    # (its criterion is then NaN: no improvement), and the loop stops right after
+    for j in range(4 if tier == "quick" else 12):
+        every = [1, 2, 3][j % 3]
+        k = every * rng.randint(0, 2)
+        base = S.base_cfg(rng, S.KINDS[j % 3], n=k + 3)
+        base["opt"] = S.OPTS[j % 4]
+        base["inject"] = dict(origin="update", k=k)
+        if j % 2 == 0:
+            base["validation"] = dict(type="scripted", every=every, stops=[False] * 6, flags=[True, False, True, True, False, True])
+        else:
+            base["validation"] = dict(type="loss", every=every, early=False, patience=1, own_param_gen=False, own_obs_gen=False)
+        cfgs.append(base)
     r = run_all(cfgs, casedir, variant, "C19")
     dv, ncalls, nties = direct_calls(rng, tier)
     r["oracle_violations"] = list(r.get("oracle_violations", [])) + dv
